@@ -459,3 +459,102 @@ pub fn finish(mut report: Report) -> i32 {
 
 pub static GLOBAL_STOP: AtomicBool = AtomicBool::new(false);
 pub static COUNTER: AtomicUsize = AtomicUsize::new(0);
+
+// ------------------------------------------------------------------ call watchdog (C18)
+
+pub struct Slot {
+    start_ms: AtomicU64,
+    kind: Mutex<&'static str>,
+    context: Mutex<Value>,
+}
+
+static SLOTS: Mutex<Vec<std::sync::Arc<Slot>>> = Mutex::new(Vec::new());
+static EPOCH: std::sync::OnceLock<Instant> = std::sync::OnceLock::new();
+
+thread_local! {
+    static MY_SLOT: std::sync::Arc<Slot> = {
+        let s = std::sync::Arc::new(Slot { start_ms: AtomicU64::new(0), kind: Mutex::new(""), context: Mutex::new(Value::Null) });
+        SLOTS.lock().unwrap().push(s.clone());
+        s
+    };
+}
+
+fn now_ms() -> u64 {
+    EPOCH.get_or_init(Instant::now).elapsed().as_millis() as u64 + 1
+}
+
+/// What this thread is working on, in the form of a replay descriptor; becomes the
+/// replay file if a call hangs.
+pub fn set_context(ctx: Value) {
+    MY_SLOT.with(|s| *s.context.lock().unwrap() = ctx);
+}
+
+/// Marks a call into the store as in progress until the guard is dropped.
+pub struct InCall;
+pub fn in_call(kind: &'static str) -> InCall {
+    MY_SLOT.with(|s| {
+        *s.kind.lock().unwrap() = kind;
+        s.start_ms.store(now_ms(), Ordering::SeqCst);
+    });
+    InCall
+}
+impl Drop for InCall {
+    fn drop(&mut self) {
+        MY_SLOT.with(|s| s.start_ms.store(0, Ordering::SeqCst));
+    }
+}
+
+/// Every call into the store runs under this watchdog. A call that does not return
+/// within `limit_s` is a C18 violation when the running check is C18's; for any other
+/// registered check it means no verdict can be produced (exit 2, naming the call); for
+/// replays and debug commands (`tier` empty) it is reported and exits 1.
+pub fn start_watchdog(property: &str, tier: &str, limit_s: u64) {
+    let property = property.to_string();
+    let tier = tier.to_string();
+    std::thread::spawn(move || loop {
+        std::thread::sleep(std::time::Duration::from_millis(500));
+        let now = now_ms();
+        let slots = SLOTS.lock().unwrap().clone();
+        for s in slots {
+            let st = s.start_ms.load(Ordering::SeqCst);
+            if st == 0 || now.saturating_sub(st) <= limit_s * 1000 {
+                continue;
+            }
+            let kind = *s.kind.lock().unwrap();
+            let ctx = s.context.lock().unwrap().clone();
+            let short: String = ctx.to_string().chars().take(400).collect();
+            let msg = format!("C18: a call into the store ({kind}) did not return within {limit_s} s; context: {short}");
+            if tier.is_empty() {
+                println!("HANG {msg}");
+                scratch_cleanup();
+                std::process::exit(1);
+            }
+            let root = verif_root();
+            let is_c18 = property == "C18";
+            let replay = root.join("replays").join(&property).join(format!("{tier}-hang.json"));
+            let _ = std::fs::create_dir_all(replay.parent().unwrap());
+            let rv = if ctx.get("engine").is_some() { ctx.clone() } else { json!({"engine": "hang", "context": ctx}) };
+            let _ = std::fs::write(
+                &replay,
+                serde_json::to_string_pretty(&json!({"property": property, "signature": format!("hang|{kind}|{short}"), "detail": msg, "replay": rv})).unwrap(),
+            );
+            let evidence = json!({
+                "property_id": property, "tier": tier, "seed": seed(), "level": "model_checking",
+                "coverage": {"states": 1, "transitions": 1, "traces_validated_against_impl": 1, "samples": [ctx], "explanation": "the run was stopped by the call watchdog"},
+                "wall_s": 0.0, "violations": if is_c18 { 1 } else { 0 }, "machinery_errors": if is_c18 { json!([]) } else { json!([msg]) },
+            });
+            let _ = std::fs::create_dir_all(root.join("evidence"));
+            let _ = std::fs::write(root.join("evidence").join(format!("{property}.json")), serde_json::to_string_pretty(&evidence).unwrap());
+            if is_c18 {
+                println!("VIOLATION property=C18 replay={}", replay.display());
+                println!("  signature: hang|{kind}|{short}");
+                println!("  {msg}");
+                scratch_cleanup();
+                std::process::exit(1);
+            }
+            println!("MACHINERY property={property} {msg} (termination failures are judged by the C18 check)");
+            scratch_cleanup();
+            std::process::exit(2);
+        }
+    });
+}
